@@ -73,6 +73,7 @@ def x6_sites(repo, funcs):
     instead of the documented ValueError.  Sanitisers: `seq.hasOnlyInts()` / `isinstance(m, int)` tests, or any
     other call that takes the member (it is decoded again or type-checked there)."""
     out = []
+    helper_seen.clear()
     for (m, f) in funcs.values():
         seqs, elems, holders = set(), set(), set()
         sanitised = set()
@@ -148,6 +149,54 @@ def x6_sites(repo, funcs):
             if hit and id(hit[0]) not in seen:
                 seen.add(id(hit[0]))
                 out.append((m, f, hit[0], hit[1]))
+        # one interprocedural step: a member handed to a helper of the same module is only as safe as the helper - its
+        # type test has to come before it uses the parameter as a number (evaluation order = source order inside one
+        # condition: `not is_native_int(v) or v <= 0` is safe, `v <= 0 or not is_native_int(v)` raises TypeError on bytes)
+        for n in body:
+            if not (isinstance(n, ast.Call) and isinstance(n.func, ast.Name)):
+                continue
+            cal = [(m2, f2) for (m2, f2) in funcs.values() if m2 is m and f2.name == n.func.id and f2.col_offset == 0]
+            if len(cal) != 1:
+                continue
+            f2 = cal[0][1]
+            pos = [a.arg for a in f2.args.args]
+            for i, a in enumerate(n.args):
+                if i < len(pos) and tainted(a):
+                    for (node, why) in _helper_param_sinks(f2, pos[i]):
+                        if (id(f2), id(node)) not in helper_seen:
+                            helper_seen.add((id(f2), id(node)))
+                            out.append((m, f2, node, why + " (reached from %s with a member of a SEQUENCE decoded without only_ints_expected)" % f.name))
+    return out
+
+
+helper_seen = set()
+TYPE_TESTS = ("isinstance", "is_native_int", "hasOnlyInts")
+
+
+def _helper_param_sinks(fn, par):
+    """Numeric uses of parameter `par` in helper `fn` that no type test of `par` precedes in source order."""
+    tests = []
+    for n in walk_no_nested(fn):
+        if isinstance(n, ast.Call) and norm(n.func).split(".")[-1] in TYPE_TESTS and n.args and \
+                isinstance(n.args[0], ast.Name) and n.args[0].id == par:
+            tests.append((n.lineno, n.col_offset))
+        if isinstance(n, ast.Assign) and any(isinstance(t, ast.Name) and t.id == par for t in n.targets):
+            tests.append((n.lineno, n.col_offset))      # re-bound (converted): later uses are of another value
+    first = min(tests) if tests else None
+
+    def unguarded(e):
+        return isinstance(e, ast.Name) and e.id == par and (first is None or (e.lineno, e.col_offset) < first)
+    out = []
+    for n in walk_no_nested(fn):
+        if isinstance(n, ast.Compare) and any(isinstance(o, (ast.Lt, ast.LtE, ast.Gt, ast.GtE)) for o in n.ops):
+            if any(unguarded(x) for x in [n.left] + list(n.comparators)):
+                out.append((n, "`%s` orders its parameter before testing its type" % norm(n)[:70]))
+        elif isinstance(n, ast.BinOp) and isinstance(n.op, (ast.Add, ast.Sub, ast.Mult, ast.FloorDiv, ast.Pow, ast.LShift, ast.RShift, ast.BitAnd, ast.BitOr)):
+            if unguarded(n.left) or unguarded(n.right):
+                out.append((n, "`%s` does arithmetic on its parameter before testing its type" % norm(n)[:70]))
+        elif isinstance(n, ast.Call) and norm(n.func).split(".")[-1] in NUMERIC_SINK_CALLS:
+            if any(unguarded(a) for a in n.args):
+                out.append((n, "`%s` uses its parameter as a number before testing its type" % norm(n)[:70]))
     return out
 
 
